@@ -2,6 +2,7 @@
 dumping their raw state in the driver's JSON form, comparing states."""
 from __future__ import annotations
 
+import decimal
 import math
 from decimal import Decimal
 from fractions import Fraction
@@ -215,6 +216,112 @@ class quiet:
         self._devnull.close()
 
 
+# ------------------------------------------------------------------------------------------ process-wide state
+# A market operation or helper must not leave process-wide state behind: everything computed afterwards (this run, the next
+# run in the same process, another strategy's backtest) would silently differ.  The decimal context is the one piece of
+# process-wide state the Uniswap code depends on (`import demeter` sets prec = 35); every step runner of the uni harnesses
+# executes real code inside `guard(...)`, which compares the context before and after and restores it on a change.
+PROCESS_STATE = []
+
+
+def context_fingerprint():
+    c = decimal.getcontext()
+    return {"prec": c.prec, "rounding": c.rounding, "Emin": c.Emin, "Emax": c.Emax, "capitals": c.capitals, "clamp": c.clamp,
+            "traps": sorted(k.__name__ for k, v in c.traps.items() if v)}
+
+
+class guard:
+    """run real code; record (and undo) any change of the process-wide decimal context"""
+
+    def __init__(self, tag, replay=None):
+        self.tag, self.replay = tag, replay
+
+    def __enter__(self):
+        self.saved = decimal.getcontext().copy()
+        self.before = context_fingerprint()
+        return self
+
+    def __exit__(self, *a):
+        after = context_fingerprint()
+        if after != self.before:
+            diff = {k: (self.before[k], after[k]) for k in after if after[k] != self.before[k]}
+            PROCESS_STATE.append((self.tag, diff, self.replay() if callable(self.replay) else self.replay))
+            self.saved.clear_flags()
+            decimal.setcontext(self.saved)
+        return False
+
+
+def report_process_state(ctx):
+    """turn the recorded context changes into violations of the property under check (key = the call that left the change)"""
+    seen = {}
+    for tag, diff, rep in PROCESS_STATE:
+        seen[tag] = seen.get(tag, 0) + 1
+        if seen[tag] <= 2:
+            ctx.violate(f"process-state.decimal-context.{tag}",
+                        f"{tag} changed the process-wide decimal context and did not restore it: " +
+                        ", ".join(f"{k} {a!r} -> {b!r}" for k, (a, b) in sorted(diff.items())) +
+                        " (every Decimal result computed afterwards in this process is rounded differently)",
+                        {"kind": "process-state", "tag": tag, "case": rep})
+    ctx.notes["process_state_guarded_calls"] = GUARDED[0]
+    PROCESS_STATE.clear()
+
+
+GUARDED = [0]
+
+
+def world_spec(w):
+    return {"pool": pool_json(w.pool), "fee": float(w.pool.fee_rate * 100), "tick": int(w.tick), "price": fmt(Decimal(w.price)),
+            "wallet": wallet_json(w.broker)}
+
+
+def replay_process_state(case) -> bool:
+    """re-run the recorded call on a fresh world of the same shape; True = the context is left as it was"""
+    import random
+    c = case.get("case") or {}
+    PROCESS_STATE.clear()
+    try:
+        ws = c["world"]
+        pj = ws["pool"]
+        w = World(random.Random(0), pool_spec=(pj["d0"], pj["d1"], pj["q0"]), fee=ws["fee"], tick=ws["tick"], price=Decimal(ws["price"]),
+                  balances=(None, None))
+        for name, b in ws["wallet"]:
+            w.broker.set_balance(w.tok(name), Decimal(Fraction(b).numerator) / Decimal(Fraction(b).denominator))
+        for op in c.get("ops", []):
+            op = {k: (Decimal(v) if k in DEC_FIELDS and v is not None else v) for k, v in op.items()}
+            if op["op"] in ("estimate_amount", "estimate_liquidity"):
+                from demeter.uniswap._typing import PositionInfo
+                with guard(op["op"]):
+                    try:
+                        if op["op"] == "estimate_amount":
+                            w.market.estimate_amount(op["value"], op["lower"], op["upper"])
+                        else:
+                            w.market.estimate_liquidity(op["value"], PositionInfo(op["lower"], op["upper"]))
+                    except Exception:  # noqa: BLE001
+                        pass
+                with guard("base_unit_price_to_real_tick/estimate_ratio/base_unit_price_to_sqrt_price_x96"):
+                    from demeter.uniswap.helper import base_unit_price_to_real_tick, base_unit_price_to_sqrt_price_x96
+                    from demeter.uniswap.liquitidy_math import estimate_ratio
+                    pool, price = w.pool, w.market.market_status.data.price
+                    try:
+                        tr = base_unit_price_to_real_tick(price, pool.token0.decimal, pool.token1.decimal, pool.is_token0_quote)
+                        base_unit_price_to_sqrt_price_x96(price, pool.token0.decimal, pool.token1.decimal, pool.is_token0_quote)
+                        estimate_ratio(tr, op["lower"], op["upper"])
+                    except Exception:  # noqa: BLE001
+                        pass
+            else:
+                apply_op(w, fill_oracles(w, op))
+    except Exception as e:  # noqa: BLE001
+        print("   process-state replay could not rebuild the call:", type(e).__name__, e)
+    bad = list(PROCESS_STATE)
+    PROCESS_STATE.clear()
+    for tag, diff, _ in bad:
+        print("   ", tag, "changed the decimal context:", diff)
+    return not bad
+
+
+DEC_FIELDS = ("a0", "a1", "base", "quote", "amount", "price", "value", "max0", "max1", "lower_price", "upper_price")
+
+
 # ------------------------------------------------------------------------------------------ real markets and operations
 POOLS = [(6, 18, True), (6, 18, False), (18, 6, True), (18, 6, False), (8, 18, True), (18, 18, False), (6, 6, True), (18, 8, False)]
 FEES = [0.05, 0.3, 1]
@@ -277,6 +384,11 @@ def oracle_ratio(pool, tick, lower, upper):
 
 def fill_oracles(w: World, op: dict) -> dict:
     """add the float-valued helper results the model takes as inputs (computed by calling the real helpers)"""
+    with guard("base_unit_price_to_tick/estimate_ratio/nearest_usable_tick"):
+        return _fill_oracles(w, op)
+
+
+def _fill_oracles(w: World, op: dict) -> dict:
     from demeter.uniswap.helper import nearest_usable_tick
     op = dict(op)
     pool = w.pool
@@ -316,7 +428,18 @@ def flat(v):
 
 
 def apply_op(w: World, op: dict):
-    """run one operation on the real market; returns (exception class name | None, flattened result)"""
+    """run one operation on the real market (inside the process-state guard); returns (exception class name | None, flattened result)"""
+    GUARDED[0] += 1
+    spec = None
+    try:
+        spec = {"world": world_spec(w), "ops": [{k: (fmt(v) if isinstance(v, Decimal) else (str(v) if isinstance(v, Fraction) else v)) for k, v in op.items()}]}
+    except Exception:  # noqa: BLE001
+        pass
+    with guard(op["op"], spec):
+        return _apply_op(w, op)
+
+
+def _apply_op(w: World, op: dict):
     from demeter.uniswap._typing import PositionInfo
     m = w.market
     k = op["op"]
@@ -324,8 +447,10 @@ def apply_op(w: World, op: dict):
         if k == "add_raw":
             r = m._add_liquidity_by_tick(Decimal(op["a0"]), Decimal(op["a1"]), op["lower"], op["upper"], -1 if op["sqrt"] is None else int(op["sqrt"]))
         elif k == "add_by_tick":
+            # `tick` is passed only when given (the "not given" value of the parameter is the code's business)
             r = m.add_liquidity_by_tick(op["lower"], op["upper"], dec_or_none(op["base"]), dec_or_none(op["quote"]),
-                                        -1 if op["sqrt"] is None else int(op["sqrt"]), -1 if op["tick"] is None else op["tick"], op["trim"])
+                                        -1 if op["sqrt"] is None else int(op["sqrt"]), trim_tick=op["trim"],
+                                        **({} if op["tick"] is None else {"tick": op["tick"]}))
         elif k == "add":
             r = m.add_liquidity(Decimal(op["lower_price"]), Decimal(op["upper_price"]), dec_or_none(op["quote"]), dec_or_none(op["base"]))
         elif k == "remove":
